@@ -94,6 +94,7 @@ func (h *History) emit(t *rapid.T, op Op) {
 	if h.cfg.Arena && op.Spare == 0 && op.Off == 0 {
 		op.Off = drawInt(t, 0, 8, "off")
 		op.Spare = drawInt(t, 0, 3, "spare")
+		op.Fill = weighted(t, []int{4, 2, 2, 1}, "fill")
 	}
 	if h.cfg.ValType == "empty" {
 		op.V = 0
@@ -130,6 +131,10 @@ func (h *History) handle(t *rapid.T, err error) {
 	tr.Ops = append([]Op(nil), h.trace.Ops...)
 	tr.Failure = err.Error()
 	failures.add(&tr)
+	if dir := os.Getenv("VERIF_FUZZ_FAILDIR"); dir != "" { // fuzz workers: persist every failing trace at once
+		_ = os.MkdirAll(dir, 0o755)
+		_ = tr.Save(fmt.Sprintf("%s/%06d-%016x.json", dir, len(tr.Ops), tr.Hash()))
+	}
 	t.Fatalf("%s: %v", h.spec.ID, err)
 }
 
